@@ -489,6 +489,8 @@ fn c01_ops(ctx: &Ctx) -> Collector {
     let units = ctx.q(64u64, 2048);
     let per = ctx.q(1500u64, 6000);
     par_units(ctx, "c01-ops", units, |u, r, col, slot| {
+        // every fourth unit with logging switched on for its thread (dropped at the end of the unit)
+        let _log = if u % 4 == 3 { Some(tracing::subscriber::set_default(crate::logsub::Sink)) } else { None };
         let (rx, range) = receivers[(u as usize) % receivers.len()];
         let mut planes = Airplanes::new();
         let mut pool: Vec<Altitude> = Vec::new();
